@@ -107,6 +107,37 @@ theorem renet_sameMap {o : Obj K} (hw : C06.WF o m) (d : Fin m) (hper : (o.basis
   rw [C04.splineVal_congr sd _ _ _ _ _ t hfib]
   exact hE sd (C04.fibre o d a i) t
 
+/-- Well-formedness and bookkeeping of `renet` (no hypothesis on periodicity or on `E`). -/
+theorem renet_wf {o : Obj K} (hw : C06.WF o m) (d : Fin m) (b' : Basis K) (hv' : b'.Valid) (E : ℕ → ℕ → K) :
+    C06.WF (renet o d b' E) m ∧ (renet o d b' E).basis d = b'
+      ∧ (∀ k : Fin m, k ≠ d → (renet o d b' E).basis k = o.basis k)
+      ∧ (renet o d b' E).ncomp = o.ncomp ∧ (renet o d b' E).rational = o.rational := by
+  have hsize : (d : ℕ) < o.bases.size := by rw [hw.size]; exact d.isLt
+  set ME := matOfE E (o.basis d).numFunctions b'.numFunctions with hME
+  have hbd : (renet o d b' E).basis d = b' := C04.basis_set o d hsize b' _
+  have hbk : ∀ k : Fin m, k ≠ d → (renet o d b' E).basis k = o.basis k := by
+    intro k hk
+    exact C04.basis_set_ne o d k (fun e => hk (Fin.ext e)) b' _
+  have hshape' : (renet o d b' E).cps.shape
+      = midx (Function.update (fun k : Fin m => (o.basis k).numFunctions) d b'.numFunctions) o.ncomp := by
+    show (Tensor.applyAxis ME o.cps d).shape = _
+    rw [C04.applyAxis_shape, hw.shape, midx_set, hME, matOfE_size]
+  have hnc : (renet o d b' E).ncomp = o.ncomp := ncomp_of_shape _ _ _ hshape'
+  refine ⟨⟨?_, ?_, ?_⟩, hbd, hbk, hnc, rfl⟩
+  · show (o.bases.set! d b').size = m
+    have : (o.bases.set! d b').size = o.bases.size := by simp [Array.set!]
+    rw [this, hw.size]
+  · intro k
+    by_cases hk : k = d
+    · subst hk; rw [hbd]; exact hv'
+    · rw [hbk k hk]; exact hw.valid k
+  · rw [hshape', hnc]
+    congr 1
+    funext k
+    by_cases hk : k = d
+    · subst hk; rw [Function.update_self, hbd]
+    · rw [Function.update_of_ne hk, hbk k hk]
+
 /-- Re-netting a direction (periodic or not) through the identity matrix onto its own basis changes
     neither the bases nor the evaluated map. -/
 theorem renet_id {o : Obj K} (hw : C06.WF o m) (d : Fin m) :
